@@ -6,22 +6,25 @@ Covered node kinds: source, flowActor stages, fused stages, sink (`middleOK`).
 import GoaktVerif.Lemmas.C45.NetBasics
 import GoaktVerif.Lemmas.C45.Nodes
 import GoaktVerif.Lemmas.C45.Sink
+import GoaktVerif.Lemmas.C45.Batch
 
 namespace GoaktVerif.C45
 open GoaktVerif.Model.C45
 
 def middleOK : Node → Bool
-  | .flow _ _ _ | .fused _ _ _ => true
+  | .flow _ _ _ | .fused _ _ _ | .batch _ _ _ => true
   | _ => false
 
 def MidInv : Node → List Down → List Down → Prop
   | .flow _ st s, ins, outs => FlowInv st s ins outs
   | .fused _ fs s, ins, outs => FusedInv fs s ins outs
+  | .batch _ n s, ins, outs => BatchInv n s ins outs
   | _, _, _ => False
 
 def midF : Node → SemFn
   | .flow _ st _ => xfRun st {}
   | .fused _ fs _ => fusedRun fs
+  | .batch _ n _ => GoaktVerif.Spec.C45.stageSem (.batch n)
   | _ => fun xs => (xs, none)
 
 theorem MidInv.specM {nd : Node} {ins outs : List Down} (h : MidInv nd ins outs) : SpecM (midF nd) ins outs := by
@@ -29,7 +32,7 @@ theorem MidInv.specM {nd : Node} {ins outs : List Down} (h : MidInv nd ins outs)
   | flow c st s => exact FlowInv.specM h
   | fused c fs s => exact FusedInv.specM h
   | src s => exact h.elim
-  | batch c n s => exact h.elim
+  | batch c n s => exact BatchInv.specM h
   | pmap o w k b e s => exact h.elim
   | sink c s => exact h.elim
 
@@ -86,6 +89,29 @@ theorem fused_cancel_dies (cfg : Cfg) (fs : List Stage) (s : FusedSt) (ev : Ev)
     | complete => simp [fusedStep]
     | error e => simp [fusedStep]
 
+theorem batch_cancel_dies (cfg : Cfg) (n : Nat) (s : BatchSt) (ev : Ev)
+    (h : Up.cancel ∈ (batchStep cfg n s ev).2.up) : (batchStep cfg n s ev).1.alive = false := by
+  cases ev with
+  | wire => simp [batchStep] at h
+  | flush => simp [batchStep] at h
+  | result q r => simp [batchStep] at h
+  | up u =>
+    cases u with
+    | req k =>
+      simp only [batchStep] at h
+      split at h
+      · simp at h
+      · exact absurd h (batch_maybeReq_spec _ _).2.2.2.2
+    | cancel => simp [batchStep]
+  | down d =>
+    cases d with
+    | elem v =>
+      cases v with
+      | int x => simp only [batchStep] at h; exact absurd h (batch_maybeReq_spec _ _).2.2.2.2
+      | list l => simp [batchStep]
+    | complete => simp only [batchStep] at h; split at h <;> simp at h
+    | error e => simp [batchStep]
+
 theorem sink_cancel_dies (cfg : Cfg) (s : SinkSt) (ev : Ev)
     (h : Up.cancel ∈ (sinkStep cfg s ev).2.up) : (sinkStep cfg s ev).1.alive = false := by
   cases ev with
@@ -116,7 +142,10 @@ theorem MidInv.step_down {nd : Node} {ins outs : List Down} (d : Down) (h : MidI
     simp only [Node.step, Node.alive, ha', Bool.not_true, Bool.false_eq_true, if_false]
     exact FusedInv.step_down c d h ha' hw
   | src s => exact h.elim
-  | batch c n s => exact h.elim
+  | batch c n s =>
+    have ha' : s.alive = true := ha
+    simp only [Node.step, Node.alive, ha', Bool.not_true, Bool.false_eq_true, if_false]
+    exact BatchInv.step_down c d h ha' hw
   | pmap o w k b e s => exact h.elim
   | sink c s => exact h.elim
 
@@ -133,7 +162,10 @@ theorem MidInv.step_req {nd : Node} {ins outs : List Down} (n : Int) (h : MidInv
     simp only [Node.step, Node.alive, ha', Bool.not_true, Bool.false_eq_true, if_false]
     exact FusedInv.step_other c (.up (.req n)) h (fun d => by simp) (by simp)
   | src s => exact h.elim
-  | batch c n s => exact h.elim
+  | batch c m s =>
+    have ha' : s.alive = true := ha
+    simp only [Node.step, Node.alive, ha', Bool.not_true, Bool.false_eq_true, if_false]
+    exact BatchInv.step_req c n h ha'
   | pmap o w k b e s => exact h.elim
   | sink c s => exact h.elim
 
@@ -208,7 +240,21 @@ theorem covered_step (nd : Node) (ev : Ev)
         | elem v => simp only [sinkStep]; split <;> rfl
         | complete => rfl
         | error e => rfl
-    | batch c n s => rcases hk with h | ⟨s', h⟩ | ⟨c', s', h⟩ <;> simp [middleOK] at h
+    | batch c n s =>
+      refine ⟨?_, fun h => batch_cancel_dies c n s ev h⟩
+      cases ev with
+      | wire => rfl
+      | flush => rfl
+      | result q r => rfl
+      | up u =>
+        cases u with
+        | req k => simp only [batchStep]; split <;> rfl
+        | cancel => rfl
+      | down d =>
+        cases d with
+        | elem v => cases v <;> rfl
+        | complete => simp only [batchStep]; split <;> rfl
+        | error e => rfl
     | pmap o w k b e s => rcases hk with h | ⟨s', h⟩ | ⟨c', s', h⟩ <;> simp [middleOK] at h
   · simp [ha]
 
